@@ -29,7 +29,7 @@ func chan255(v float32) int { return int(math.Round(float64(v) * 255)) }
 
 // observe decodes the flat event list of a page: fill colours at Paint and texts at DrawText.
 // Colours: background #0i0000, border #0i0100, outline #0i0200 for box i.
-func observe(flat []rec.Event) *observation {
+func observe(flat []rec.Event, nbox int) *observation {
 	o := &observation{}
 	black := parser.RGBA{A: 1}
 	fills := []parser.RGBA{black} // graphic state stack (fill colour only)
@@ -81,14 +81,14 @@ func observe(flat []rec.Event) *observation {
 			}
 			c := fills[len(fills)-1]
 			r, g, b := chan255(c.R), chan255(c.G), chan255(c.B)
-			if r >= 1 && r <= 4 && g <= 2 && b == 0 && c.A == 1 {
+			if r >= 1 && r <= nbox && g <= 2 && b == 0 && c.A == 1 {
 				o.raw = append(o.raw, ev{r, [3]byte{evBg, evBo, evOl}[g]})
 			} else {
 				o.unknown = append(o.unknown, fmt.Sprintf("fill #%02x%02x%02x", r, g, b))
 			}
 		case "DrawText":
-			if len(e.Text) == 1 && e.Text[0] >= 'a' && e.Text[0] <= 'd' {
-				o.raw = append(o.raw, ev{int(e.Text[0]-'a') + 1, evTx})
+			if i := strings.Index(glyphs, e.Text); len(e.Text) == 1 && i >= 0 && i < nbox {
+				o.raw = append(o.raw, ev{i + 1, evTx})
 			} else {
 				o.unknown = append(o.unknown, fmt.Sprintf("text %q", e.Text))
 			}
